@@ -522,3 +522,34 @@ def check_C15(tier, seed):
     import shutil
     shutil.rmtree(wd, ignore_errors=True)
     return 1 if nviol else 0
+
+
+# ---------------------------------------------------------------- C02 / C03
+def step_weight(evs):
+    w = 0
+    for ev in evs:
+        if ev.get("e") in ("from_seed", "seed_from_u64", "from_rng", "try_from_rng"):
+            w += 300
+        n = ev.get("n", 1)
+        w += n if isinstance(n, int) else 1
+    return w
+
+
+def check_C02(tier, seed):
+    S = corpora.block_alg_corpus("Hc128Rng", seed, tier, 32, 2200, 2)
+    return trace_check("C02", tier, seed, S, "Trace_Alg.tla", "Trace_Alg.cfg", weight=step_weight, timeout=3400,
+                       rule="Hc128Rng::from_seed + next_u32 on unit-bit seeds (every key and IV bit), structured seeds, random seeds x 32..96 words, and long runs of 2200 consecutive words (P phase, Q phase, every 16-word refill, the 1024-step wrap and into the second cycle); every word is compared by TLC with Wu's HC-128 written in paper form (Hc128.tla: W expansion, 1024 set-up steps, g1/g2/h1/h2, boxminus indices). distinct = distinct recorded events",
+                       assumptions=COMMON_ASSUME + ["sampled seeds and positions < 2200: HC-128 is non-linear, agreement is established on the corpus, not for all 2^256 seeds; the usize counter wrap is not reachable"])
+
+
+def check_C03(tier, seed):
+    t0 = time.time()
+    parts, nviol = [], 0
+    for kind, salt in (("IsaacRng", 3), ("Isaac64Rng", 33)):
+        S = corpora.block_alg_corpus(kind, seed, tier, 256, 10240 if tier != "quick" else 1024, salt)
+        ev, cs, res = run_trace("C03-" + kind, S, "Trace_Alg.tla", "Trace_Alg.cfg", weight=step_weight, timeout=3400)
+        parts.append((ev, cs, res))
+        nviol += report_rejections("C03", res["rejected"], S)
+    cov = base_cov(parts, "IsaacRng / Isaac64Rng from_seed + native next on unit-bit seeds x the complete first block (all 256 indices), structured and random seeds x 3 blocks, long runs past word 10000 (thorough); every word compared by TLC with Jenkins' ISAAC / ISAAC-64 in reference shape (Isaac.tla: mix, randinit(TRUE) with zero-extended seed, isaac(), results consumed from the end); the golden-ratio pre-mix constants are derived in the spec. distinct = distinct recorded events", ["Trace_Alg"])
+    vlib.write_evidence("C03", tier, seed, "model_checking", cov, COMMON_ASSUME + ["sampled seeds: ISAAC is non-linear; agreement is established on the corpus, not for all seeds"], time.time() - t0, nviol)
+    return 1 if nviol else 0
